@@ -89,6 +89,17 @@ def run(prop, tier, seed, opts):
                 case_lines.append(l)
         if header_line is None or not case_lines:
             raise V.Broken("EngineLife emitted no header / no histories")
+        # long random walks of the same state machine (TLC simulation): 24 operations each
+        nwalks = 6 if tier == "quick" else 120
+        sres = V.run_tlc(scratch, "EngineLife", "MC_C01_sim.cfg", workers=1, timeout=900, sub="tlc-sim",
+                         extra=["-simulate", "num=%d" % nwalks, "-depth", "25", "-seed", str(seed)])
+        V.tlc_ok(sres, "EngineLife/MC_C01_sim.cfg")
+        n_exhaustive = len(case_lines)
+        with open(sres["cases"]) as f:
+            for l in f:
+                if l.strip() and '"hdr":true' not in l[:400]:
+                    case_lines.append(l)
+        n_walk_histories = len(case_lines) - n_exhaustive
         # distinct keys -> pristine oracle (fresh process per key)
         keys = set()
         nrenders = 0
@@ -162,12 +173,13 @@ def run(prop, tier, seed, opts):
         cov = dict(states=max(1, res["distinct"]), transitions=max(1, res["states"]),
                    traces_validated_against_impl=len(results), evaluations=nrenders,
                    distinct_nontrivial=len({r.get("key") for r in results}),
-                   rule="every operation history of length MaxLen over register / parse (discarded and kept) / render / render of a "
+                   rule="(plus TLC random walks of 24 operations) every operation history of length MaxLen over register / parse (discarded and kept) / render / render of a "
                         "kept template / cache and debug toggles / GC / activity on a second engine that ends in a render; every render "
                         "is compared with the pristine result of its key (same templates+configuration on a fresh engine in a fresh "
                         "process); all histories are non-trivial (>= 1 render after other activity)",
                    samples=samples, oracle_keys=len(keys), histories=len(results), failing=len(failing),
-                   deviation_check=dev_info, exhaustive=True,
+                   exhaustive_histories=n_exhaustive, random_walk_histories=n_walk_histories,
+                   deviation_check=dev_info, exhaustive=False,
                    tlc=dict(cfg=cfg, properties=["RenderPure", "FailedOpsPure", "NoStaleRender"], wall_s=round(res["wall"], 1)))
         V.write_evidence(prop, tier, seed, "model_checking", cov, wall, len(violations),
                          ["EngineLife.tla: rendering is an uninterpreted function of the logical state (key)",
